@@ -79,7 +79,7 @@ func randInt(r *rand.Rand, bits int, signed bool) *big.Int {
 		if v.Cmp(lo) >= 0 && v.Cmp(hi) <= 0 {
 			return v
 		}
-		return big.NewInt(int64(r.IntN(3) - 1) * int64(boolToInt(signed)))
+		return big.NewInt(int64(r.IntN(3)-1) * int64(boolToInt(signed)))
 	case 0:
 		return big.NewInt(0)
 	case 1:
